@@ -1016,7 +1016,7 @@ impl World for WorldB {
                 &wadmin,
                 &json!({"admins": cfg.sk_admins.iter().map(|a| addr_of(a)).collect::<Vec<_>>(), "mutable": cfg.sk_mutable}),
                 vec![],
-                None,
+                Some(wadmin.clone()), // chain-level admin: the only one who may migrate the code
             )
             .unwrap_or_default();
         for p in [&wl, &sk] {
@@ -1105,6 +1105,10 @@ impl World for WorldB {
         };
         if let Some(s) = self.queue.pop_front() {
             return s;
+        }
+        if rng.chance(1, 45) {
+            // a code upgrade in the middle of activity (cw1-subkeys has a migrate entry point)
+            return Step::Migrate { target: "sk".into(), msg: json!({}), scenario: None };
         }
         if rng.chance(1, 14) {
             // F1: an admin's Decrease racing the subkey's spend, adjacent, in either order
@@ -1391,6 +1395,28 @@ impl World for WorldB {
                         self.meter.token("tx", "any", "failed", 0);
                     }
                     self.check_frames(&evs, &r, out);
+                    self.check_state(!r.ok, out);
+                }
+            }
+            Step::Migrate { target, msg, .. } => {
+                if target == "sk" && self.chain.contracts.contains_key("sk") {
+                    let before = self.snap_now("sk");
+                    let r = self.chain.migrate(&addr_of("wasm-admin"), "sk", msg);
+                    let after = self.snap_now("sk");
+                    self.meter.token("migrate", "wasm-admin", if r.ok { "ok" } else { "failed" }, 0);
+                    self.meter.hit("subkeys_migrated");
+                    if let (Some(a), Some(b)) = (before, after) {
+                        if a.admins != b.admins || a.mutable != b.mutable {
+                            self.viol(out, "C17", "migrate-changed-admin-list", json!({}), format!("migrate: admins {:?} (mutable {}) -> {:?} (mutable {})", a.admins, a.mutable, b.admins, b.mutable));
+                        }
+                        if a.allow != b.allow || a.listed_allow != b.listed_allow {
+                            self.viol(out, "C08", "migrate-changed-allowances", json!({}), "migrate changed subkey allowances".into());
+                            self.viol(out, "C17", "migrate-changed-allowances-or-permissions", json!({"table": "allowances"}), "migrate changed subkey allowances".into());
+                        }
+                        if a.perms != b.perms || a.listed_perms != b.listed_perms {
+                            self.viol(out, "C17", "migrate-changed-allowances-or-permissions", json!({"table": "permissions"}), "migrate changed subkey permissions".into());
+                        }
+                    }
                     self.check_state(!r.ok, out);
                 }
             }
